@@ -517,6 +517,34 @@ func runCorruptions(rng *rand.Rand, t *vtree, w *vwriter, mode, label string, pe
 	}
 }
 
+// header-first import of batches that overlap what the node already has and end in a header breaking a consensus rule: the
+// batch must fail and the bad header must not be stored (one-by-one and batch verification agree)
+func runHeaderCorruptions(rng *rand.Rand, t *vtree, w *vwriter) {
+	var leaves []*vblk
+	for _, v := range t.blocks {
+		if v.valid && v.parent != nil && len(pathTo(v)) >= 3 {
+			leaves = append(leaves, v)
+		}
+	}
+	if len(leaves) == 0 {
+		return
+	}
+	for k := 0; k < 3; k++ {
+		v := leaves[rng.Intn(len(leaves))]
+		path := pathTo(v) // genesis (exclusive) .. v
+		n := t.newNode(w, "archive", fmt.Sprintf("hdr-corrupt-%d", k))
+		cut := 1 + rng.Intn(len(path)-1) // the node first gets path[:cut]
+		from := rng.Intn(cut)            // the second batch re-delivers path[from:] ...
+		n.insertHeaders(path[:cut])
+		bad := t.corruptHeader(rng, v) // ... with a bad header in place of the last one
+		n.t = t
+		batch := append(append([]*vblk{}, path[from:len(path)-1]...), bad)
+		n.insertHeaders(batch)
+		n.insertHeaders([]*vblk{v}) // the valid one is still accepted afterwards (if its parent chain got in)
+		n.stop()
+	}
+}
+
 func TestVerifChain(t *testing.T) {
 	out := os.Getenv("VERIF_OUT")
 	if out == "" {
@@ -583,6 +611,7 @@ func runTree(rng *rand.Rand, tr *vtree, w *vwriter, nHist int, rewind bool, emit
 	runReferenceH(tr, bw, "archive", "headers-ref-single", false, true)
 	runRandomHistory(rng, tr, bw, "archive", "headers", 6+rng.Intn(6), true, true)
 	runCorruptions(rng, tr, bw, []string{"archive", "pruning"}[rng.Intn(2)], "corrupt", 1)
+	runHeaderCorruptions(rng, tr, bw)
 	emitTree(tr)
 	for _, e := range buf.evs {
 		w.emit(e)
